@@ -1,7 +1,7 @@
 SPECIFICATION USpec
 CONSTANTS
-    Inputs <- MCInputs3x3
-    Configs <- MCConfigs3
+    Inputs <- MCInputsThorough
+    Configs <- MCConfigsBoth
 INVARIANTS
     UnionExactlyOnceOrdered
     UnionFlushOnClose
